@@ -191,7 +191,7 @@ func c17Universes(r *ev.Run) []*c17Universe {
 	// Every block is an epoch, so that expiry, removal and re-registration are within reach.
 	for ui, o := range []chain.GenesisOptions{
 		{EpochInterval: 1, NodeExpirations: []uint64{12, 3, 12}},
-		{EpochInterval: 1, NodeExpirations: []uint64{12, 3, 12}, Runtime: true},
+		{EpochInterval: 1, NodeExpirations: []uint64{12, 3, 12}, Runtime: true, RtFunded: true},
 	} {
 		w, err := newWorld(o)
 		if err != nil {
